@@ -25,6 +25,13 @@ theorem passesCurrent_of_ok (g : Glue) (hg : GlueOk g = true) : g.passesCurrent 
   rw [(glueOk_facts g hg).2.1]
   rfl
 
+theorem cacheReadAfter_of_ok (g : Glue) (hg : GlueOk g = true) : g.cacheReadAfter = true := by
+  unfold GlueOk at hg
+  simp only [Bool.and_eq_true, beq_iff_eq, and_assoc] at hg
+  unfold Glue.cacheReadAfter
+  rw [hg.2.2.2.2.2.1]
+  rfl
+
 theorem aligned_of_ok (g : Glue) (hg : GlueOk g = true) : g.aligned = true := by
   obtain ⟨h1, h2, h3, h4, h5, _⟩ := glueOk_facts g hg
   unfold Glue.aligned
@@ -43,7 +50,7 @@ theorem installG_eq (g : Glue) (hg : GlueOk g = true) (c : SContent) :
 
 /-- with the facts of the repaired source: when the remembered cache object is the current one and the values are the
     remembered ones the closure is used as it is; otherwise it is compiled again for the current content, and what the
-    closure remembers changes only if that succeeds -/
+    closure remembers changes only if that succeeds — then it is the cache object the compilation left in place -/
 theorem callG_unfold (g : Glue) (hg : GlueOk g = true) (cl : JacClosure) (clVer : Nat) (now : SContent) (nowVer : Nat)
     (t : Rat) (xs : List Rat) :
     cl.callG g clVer now nowVer t xs =
@@ -53,12 +60,24 @@ theorem callG_unfold (g : Glue) (hg : GlueOk g = true) (cl : JacClosure) (clVer 
          if (values != cl.vals || nowVer != clVer) then
            match compileJac now with
            | .error e => ((cl, clVer), .error e)
-           | .ok f => ((({ fn := f, vals := values } : JacClosure), nowVer), evalJacFn f t xs values)
+           | .ok f => ((({ fn := f, vals := values } : JacClosure), nowVer + 1), evalJacFn f t xs values)
          else ((cl, clVer), evalJacFn cl.fn t xs values)) := by
   obtain ⟨_, _, _, _, _, hw, hsc, hcb, h1, h2, _⟩ := glueOk_facts g hg
   have h3 := passesCurrent_of_ok g hg
+  have h4 := cacheReadAfter_of_ok g hg
   unfold JacClosure.callG
-  simp only [h1, h2, h3, hw, hsc, hcb, Bool.true_and, if_true]
+  simp only [h1, h2, h3, h4, hw, hsc, hcb, Bool.true_and, if_true, Bool.and_self]
+  rfl
+
+theorem recompilesG_unfold (g : Glue) (hg : GlueOk g = true) (cl : JacClosure) (clVer : Nat) (now : SContent)
+    (nowVer : Nat) :
+    cl.recompilesG g clVer now nowVer =
+      (match jacArgs now with
+       | .error _ => false
+       | .ok (_, _, values) => (values != cl.vals || nowVer != clVer)) := by
+  obtain ⟨_, _, _, _, _, hw, _, _, h1, _⟩ := glueOk_facts g hg
+  unfold JacClosure.recompilesG
+  simp only [h1, hw, Bool.true_and]
   rfl
 
 /-! ### parameter updates leave everything but the parameter values alone, and never turn a plain
@@ -241,6 +260,59 @@ theorem call_state (cl cl' : JacClosure) (now : SContent) (t : Rat) (xs : List R
             cases h'
             exact hv
 
+/-- a fresh Simulator's `jac_fn` is: compile, then evaluate at the model's own values -/
+theorem callJac_eq_of_compile (now : SContent) (t : Rat) (xs : List Rat) (f : JacFn)
+    (vn pn : List Name) (values : List Rat)
+    (hja : jacArgs now = .ok (vn, pn, values)) (hf : compileJac now = .ok f) :
+    callJac now t xs = (match evalJacFn f t xs values with | .ok J => .ok (some J) | .error e => .error e) := by
+  unfold compileJac at hf
+  cases hs : toSymbolic now with
+  | error err => simp [hs, bind, Except.bind] at hf
+  | ok es =>
+    simp only [hs, hja, bind, Except.bind, pure, Except.pure, Except.ok.injEq] at hf
+    subst hf
+    unfold callJac simJacobian evalJacFn
+    simp only [hs, hja, bind, Except.bind]
+    split
+    · rfl
+    · split <;> simp [pure, Except.pure]
+
+theorem compile_of_install (c : SContent) (cl : JacClosure) (h : installJac c = some cl) :
+    compileJac c = .ok cl.fn := by
+  unfold installJac at h
+  cases hs : simJacobian c with
+  | none => simp [hs] at h
+  | some f =>
+    cases hj : jacArgs c with
+    | error e => simp [hs, hj] at h
+    | ok a =>
+      obtain ⟨vn, pn, pv⟩ := a
+      simp only [hs, hj, Option.some.injEq] at h
+      subst h
+      unfold simJacobian at hs
+      unfold compileJac
+      cases ht : toSymbolic c with
+      | error err => simp [ht] at hs
+      | ok es =>
+        simp only [ht, hj, Option.some.injEq] at hs
+        simp [hj, bind, Except.bind, pure, Except.pure, hs]
+
+/-- no conversion, no matrix: when the parameter values cannot be read or the conversion raises, a fresh Simulator has
+    no Jacobian -/
+theorem callJac_none_of_jacArgs_error (now : SContent) (t : Rat) (xs : List Rat) (e : Err)
+    (h : jacArgs now = .error e) : callJac now t xs = .ok none := by
+  unfold callJac simJacobian
+  cases toSymbolic now <;> simp [h]
+
+theorem callJac_none_of_compile_error (now : SContent) (t : Rat) (xs : List Rat) (e : Err) (vn pn : List Name)
+    (values : List Rat) (hja : jacArgs now = .ok (vn, pn, values)) (h : compileJac now = .error e) :
+    callJac now t xs = .ok none := by
+  unfold compileJac at h
+  unfold callJac simJacobian
+  cases hs : toSymbolic now with
+  | error err => simp
+  | ok es => simp [hs, hja, bind, Except.bind, pure, Except.pure] at h
+
 /-! ### histories -/
 
 /-- what the integrator holds (a closure, or nothing) is what `_initialise_integrator` gives on some content `c0`; and
@@ -265,20 +337,27 @@ def GoodOuts : SContent → List SimOp → List SimOut → Prop
        (c.wf = true → ∃ cache es, createCache c.toContent = .ok cache ∧ toSymbolic c = .ok es ∧
           J = (jacobianOf es cache.varNames).map fun row => row.map (evalS (symEnv c cache xs)))) ∧
       GoodOuts c ops outs
-  -- a call that raises hands nothing over (allowed by the property); the history goes on
-  | c, .call _ _ :: ops, .raised :: outs => GoodOuts c ops outs
+  -- a call raises only where a Simulator freshly built on the current content hands no matrix over either (it has no
+  -- Jacobian because the conversion fails, or its own `jac_fn` raises); the history goes on, and by the clauses above
+  -- no later call is answered with a matrix of another content
+  | c, .call t xs :: ops, .raised :: outs => (∀ J, callJac c t xs ≠ .ok (some J)) ∧ GoodOuts c ops outs
   | _, _, _ => False
 
-/-- one call with the facts of the repaired source: a returned matrix is the fresh one; whatever happens (also when the
-    call raises), the closure afterwards is the old one or one installed on the current content -/
+/-- one call with the facts of the repaired source: a returned matrix is the fresh one; a call raises only where a fresh
+    Simulator hands no matrix over; whatever happens, the closure afterwards is the old one or one installed on the
+    current content that remembers the cache object the compilation left in place -/
 theorem callG_sound (g : Glue) (hg : GlueOk g = true) (c0 now : SContent) (cl : JacClosure) (clVer nowVer : Nat)
     (t : Rat) (xs : List Rat) (hi : installJac c0 = some cl) (hsame : clVer = nowVer → now = c0) :
     (∀ J, (cl.callG g clVer now nowVer t xs).2 = .ok J → callJac now t xs = .ok (some J)) ∧
+    (∀ e, (cl.callG g clVer now nowVer t xs).2 = .error e → ∀ J, callJac now t xs ≠ .ok (some J)) ∧
     ((cl.callG g clVer now nowVer t xs).1 = (cl, clVer) ∨
-     (installJac now = some (cl.callG g clVer now nowVer t xs).1.1 ∧ (cl.callG g clVer now nowVer t xs).1.2 = nowVer)) := by
-  rw [callG_unfold g hg]
+     (installJac now = some (cl.callG g clVer now nowVer t xs).1.1 ∧
+        (cl.callG g clVer now nowVer t xs).1.2 = nowVer + 1 ∧ cl.recompilesG g clVer now nowVer = true)) := by
+  rw [callG_unfold g hg, recompilesG_unfold g hg]
   cases hja : jacArgs now with
-  | error err => exact ⟨fun J h => by simp at h, Or.inl rfl⟩
+  | error err =>
+    refine ⟨fun J h => by simp at h, fun e _ J => ?_, Or.inl rfl⟩
+    rw [callJac_none_of_jacArgs_error now t xs err hja]; simp
   | ok args =>
     obtain ⟨vn, pn, values⟩ := args
     simp only []
@@ -293,24 +372,29 @@ theorem callG_sound (g : Glue) (hg : GlueOk g = true) (c0 now : SContent) (cl : 
         exact hv0.2.2
       have hb : (values != cl.vals || nowVer != clVer) = false := by simp [hvals, hver]
       simp only [hb, Bool.false_eq_true, if_false]
-      refine ⟨?_, Or.inl (by simp)⟩
-      intro J hJ
-      have hcall : cl.call now t xs = .ok (cl, J) := by
-        unfold JacClosure.call
-        have hb' : (values != cl.vals) = false := by simp [hvals]
-        simp only [hja, bind, Except.bind, hb', Bool.false_eq_true, if_false, pure, Except.pure, hJ]
-      exact closure_follows c0 now cl cl t xs J hi (Or.inl hnow) hcall
+      have hcomp : compileJac now = .ok cl.fn := by rw [hnow]; exact compile_of_install c0 cl hi
+      have heq := callJac_eq_of_compile now t xs cl.fn vn pn values hja hcomp
+      refine ⟨?_, ?_, Or.inl (by simp)⟩
+      · intro J hJ
+        rw [heq, hJ]
+      · intro e he J
+        rw [heq, he]; simp
     · have hb : (values != cl.vals || nowVer != clVer) = true := by
         have : (nowVer != clVer) = true := by simpa using fun h' => hver h'.symm
         simp [this]
       simp only [hb, if_true]
       cases hf : compileJac now with
-      | error err => exact ⟨fun J h => by simp at h, Or.inl (by simp)⟩
+      | error err =>
+        refine ⟨fun J h => by simp at h, fun e _ J => ?_, Or.inl (by simp)⟩
+        rw [callJac_none_of_compile_error now t xs err vn pn values hja hf]; simp
       | ok f =>
         simp only []
-        refine ⟨?_, Or.inr ⟨installJac_of_compile now f vn pn values hf hja, by simp⟩⟩
-        intro J hJ
-        exact callJac_of_compile now t xs f vn pn values J hja hf hJ
+        have heq := callJac_eq_of_compile now t xs f vn pn values hja hf
+        refine ⟨?_, ?_, Or.inr ⟨installJac_of_compile now f vn pn values hf hja, by simp, by simp⟩⟩
+        · intro J hJ
+          rw [heq, hJ]
+        · intro e he J
+          rw [heq, he]; simp
 
 /-- no needless compilation: while the model has not been edited since the closure was compiled, a call uses the
     compiled function as it is -/
@@ -347,8 +431,8 @@ theorem step_inv (g : Glue) (hg : GlueOk g = true) (s s' : SimState) (op : SimOp
     have := (hc cl ver hj).1
     exact ⟨by simp only; omega, fun hv => by simp only at hv; omega⟩
   | reinit =>
-    simp only [SimState.stepG, installG_eq g hg, bind, Except.bind, pure, Except.pure, Except.ok.injEq,
-      Prod.mk.injEq] at h
+    simp only [SimState.stepG, installG_eq g hg, cacheReadAfter_of_ok g hg, bind, Except.bind, pure, Except.pure,
+      Except.ok.injEq, Prod.mk.injEq, if_true] at h
     obtain ⟨h1, h2⟩ := h
     subst h1 h2
     refine ⟨⟨s.content, ?_, ?_⟩, by simp [GoodOuts], rfl⟩
@@ -377,24 +461,61 @@ theorem step_inv (g : Glue) (hg : GlueOk g = true) (s s' : SimState) (op : SimOp
       obtain ⟨h1, h2⟩ := h
       subst h1 h2
       obtain ⟨hle, hsame⟩ := hc cl ver hj
-      obtain ⟨hJ, hst⟩ := callG_sound g hg c0 s.content cl ver s.version t xs hi hsame
+      obtain ⟨hJ, hE, hst⟩ := callG_sound g hg c0 s.content cl ver s.version t xs hi hsame
       refine ⟨?_, ?_, rfl⟩
-      · rcases hst with hkeep | ⟨hinst, hver⟩
+      · rcases hst with hkeep | ⟨hinst, hver, hrec⟩
         · refine ⟨c0, by simp only [hkeep, Option.map_some]; exact hi, ?_⟩
           intro cl' ver' hj'
           simp only [hkeep, Option.some.injEq, Prod.mk.injEq] at hj'
           rw [← hj'.2]
-          exact ⟨hle, hsame⟩
+          by_cases hrec : cl.recompilesG g ver s.content s.version = true
+          · simp only [hrec, if_true]
+            exact ⟨by omega, fun hv => by omega⟩
+          · simp only [hrec]
+            exact ⟨hle, hsame⟩
         · refine ⟨s.content, by simp [hinst], ?_⟩
           intro cl' ver' hj'
           simp only [Option.some.injEq] at hj'
-          have hv2 : ver' = s.version := by rw [← hver, hj']
-          exact ⟨by rw [hv2]; exact Nat.le_refl _, fun _ => rfl⟩
+          have hv2 : ver' = s.version + 1 := by rw [← hver, hj']
+          simp only [hrec, if_true]
+          exact ⟨by rw [hv2]; exact Nat.le_refl _, fun _ => trivial⟩
       · cases hr : (cl.callG g ver s.content s.version t xs).2 with
-        | error e => simp [GoodOuts]
+        | error e =>
+          simp only [GoodOuts, and_true]
+          exact hE e hr
         | ok J =>
           simp only [GoodOuts, and_true]
           exact ⟨hJ J hr, fun hwf => jacfn_sound s.content hwf t xs J (hJ J hr)⟩
+
+/-- a call that returned a matrix leaves the closure in step with the model: it remembers the cache object that is in
+    place now (the one the compilation left there, if it compiled), so the next call does not compile again -/
+theorem mat_in_step (g : Glue) (hg : GlueOk g = true) (s s' : SimState) (t : Rat) (xs : List Rat) (J : List (List Rat))
+    (h : s.stepG g (.call t xs) = .ok (s', .mat J)) : ∃ cl, s'.jac = some (cl, s'.version) := by
+  simp only [SimState.stepG] at h
+  cases hj : s.jac with
+  | none => simp [hj] at h
+  | some clv =>
+    obtain ⟨cl, ver⟩ := clv
+    simp only [hj, Except.ok.injEq, Prod.mk.injEq] at h
+    obtain ⟨h1, h2⟩ := h
+    subst h1
+    rw [callG_unfold g hg, recompilesG_unfold g hg] at *
+    cases hja : jacArgs s.content with
+    | error err => simp [hja] at h2
+    | ok args =>
+      obtain ⟨vn, pn, values⟩ := args
+      simp only [hja] at h2 ⊢
+      by_cases hb : (values != cl.vals || s.version != ver) = true
+      · simp only [hb, if_true] at h2 ⊢
+        cases hf : compileJac s.content with
+        | error err => simp [hf] at h2
+        | ok f => exact ⟨_, rfl⟩
+      · have hb' : (values != cl.vals || s.version != ver) = false := by simpa using hb
+        simp only [hb', Bool.false_eq_true, if_false] at h2 ⊢
+        have hv : s.version = ver := by
+          simp only [Bool.or_eq_false_iff, bne_eq_false_iff_eq] at hb'
+          exact hb'.2
+        exact ⟨cl, by rw [hv]⟩
 
 theorem goodOuts_cons (c : SContent) (op : SimOp) (o : SimOut) (ops : List SimOp) (outs : List SimOut)
     (h1 : GoodOuts c [op] [o]) (h2 : GoodOuts (op.after c) ops outs) :
@@ -411,7 +532,9 @@ theorem goodOuts_cons (c : SContent) (op : SimOp) (o : SimOut) (ops : List SimOp
     | mat J =>
       simp only [GoodOuts, and_true] at h1
       exact ⟨h1, h2⟩
-    | raised => simpa [GoodOuts, SimOp.after] using h2
+    | raised =>
+      simp only [GoodOuts, and_true] at h1
+      exact ⟨h1, h2⟩
 
 theorem run_good (g : Glue) (hg : GlueOk g = true) : ∀ (ops : List SimOp) (s s' : SimState) (outs : List SimOut),
     SimInv s → runG g s ops = .ok (s', outs) → GoodOuts s.content ops outs ∧ SimInv s' := by
@@ -447,9 +570,11 @@ theorem run_good (g : Glue) (hg : GlueOk g = true) : ∀ (ops : List SimOp) (s s
 theorem sim_history_inv (g : Glue) (hg : GlueOk g = true) (c : SContent) (ops : List SimOp) (s0 s : SimState)
     (outs : List SimOut) (h0 : simInitG g c = .ok s0) (hr : runG g s0 ops = .ok (s, outs)) : SimInv s := by
   unfold simInitG at h0
-  simp only [installG_eq g hg, bind, Except.bind, pure, Except.pure, Except.ok.injEq] at h0
+  simp only [installG_eq g hg, cacheReadAfter_of_ok g hg, bind, Except.bind, pure, Except.pure, Except.ok.injEq,
+    if_true] at h0
   subst h0
-  have hinv : SimInv { content := c, version := 0, jac := (installJac c).map fun cl => (cl, 0) } := by
+  have hinv : SimInv { content := c, version := verAfterCompile c 0,
+                       jac := (installJac c).map fun cl => (cl, verAfterCompile c 0) } := by
     refine ⟨c, ?_, ?_⟩
     · cases installJac c <;> simp
     · intro cl ver hj
@@ -460,6 +585,106 @@ theorem sim_history_inv (g : Glue) (hg : GlueOk g = true) (c : SContent) (ops : 
         exact ⟨by rw [← hj.2]; exact Nat.le_refl _, fun _ => rfl⟩
   exact (run_good g hg ops _ s outs hinv hr).2
 
+/-- the integrator is without a Jacobian exactly because the model did not convert WHEN THE INTEGRATOR WAS LAST BUILT:
+    `b` = the content at construction / the last re-initialisation, `c` = the current content -/
+def NoJacJustified : SContent → SContent → List SimOp → List SimOut → Prop
+  | _, _, [], _ => True
+  | b, c, .setPar k v :: ops, _ :: outs => NoJacJustified b (c.setPar k v) ops outs
+  | b, _, .edit c' :: ops, _ :: outs => NoJacJustified b c' ops outs
+  | _, c, .reinit :: ops, _ :: outs => NoJacJustified c c ops outs
+  | b, c, .call _ _ :: ops, .noJac :: outs => installJac b = none ∧ NoJacJustified b c ops outs
+  | b, c, .call _ _ :: ops, _ :: outs => NoJacJustified b c ops outs
+  | _, _, _ :: _, [] => True
+
+theorem run_noJac (g : Glue) (hg : GlueOk g = true) : ∀ (ops : List SimOp) (s s' : SimState) (outs : List SimOut)
+    (b : SContent), (s.jac = none → installJac b = none) → runG g s ops = .ok (s', outs) →
+    NoJacJustified b s.content ops outs := by
+  intro ops
+  induction ops with
+  | nil => intro s s' outs b _ _; simp [NoJacJustified]
+  | cons op ops ih =>
+    intro s s' outs b hb h
+    simp only [runG, bind, Except.bind] at h
+    cases hs : s.stepG g op with
+    | error e => simp [hs] at h
+    | ok r =>
+      obtain ⟨s1, o⟩ := r
+      simp only [hs] at h
+      cases hr : runG g s1 ops with
+      | error e => simp [hr] at h
+      | ok r2 =>
+        obtain ⟨s2, os⟩ := r2
+        simp only [hr, pure, Except.pure, Except.ok.injEq, Prod.mk.injEq] at h
+        obtain ⟨_, h2⟩ := h
+        subst h2
+        cases op with
+        | setPar k v =>
+          simp only [SimState.stepG, Except.ok.injEq, Prod.mk.injEq] at hs
+          obtain ⟨h1, _⟩ := hs
+          subst h1
+          simp only [NoJacJustified]
+          refine ih _ s2 os b ?_ hr
+          exact hb
+        | edit c' =>
+          simp only [SimState.stepG, Except.ok.injEq, Prod.mk.injEq] at hs
+          obtain ⟨h1, _⟩ := hs
+          subst h1
+          simp only [NoJacJustified]
+          refine ih _ s2 os b ?_ hr
+          exact hb
+        | reinit =>
+          simp only [SimState.stepG, installG_eq g hg, bind, Except.bind, pure, Except.pure, Except.ok.injEq,
+            Prod.mk.injEq] at hs
+          obtain ⟨h1, _⟩ := hs
+          subst h1
+          simp only [NoJacJustified]
+          refine ih { s with version := verAfterCompile s.content s.version,
+                             jac := (installJac s.content).map fun cl =>
+                               (cl, if g.cacheReadAfter then verAfterCompile s.content s.version else s.version) }
+            s2 os s.content ?_ hr
+          intro hnone
+          cases hij : installJac s.content with
+          | none => rfl
+          | some cl => simp only [hij, Option.map_some] at hnone; cases hnone
+        | call t xs =>
+          simp only [SimState.stepG] at hs
+          cases hj : s.jac with
+          | none =>
+            simp only [hj, Except.ok.injEq, Prod.mk.injEq] at hs
+            obtain ⟨h1, h3⟩ := hs
+            subst h1 h3
+            simp only [NoJacJustified]
+            refine ⟨hb hj, ih _ s2 os b ?_ hr⟩
+            exact hb
+          | some clv =>
+            obtain ⟨cl, ver⟩ := clv
+            simp only [hj, Except.ok.injEq, Prod.mk.injEq] at hs
+            obtain ⟨h1, h3⟩ := hs
+            subst h1
+            have hnext : NoJacJustified b s.content ops os := by
+              refine ih { s with version := (if cl.recompilesG g ver s.content s.version then s.version + 1 else s.version),
+                                 jac := some (cl.callG g ver s.content s.version t xs).1 } s2 os b ?_ hr
+              intro hn; cases hn
+            cases o with
+            | upd => simp only [NoJacJustified]; exact hnext
+            | noJac =>
+              -- impossible: the closure exists, the output is a matrix or `raised`
+              cases hres : (cl.callG g ver s.content s.version t xs).2 <;> simp [hres] at h3
+            | mat J => simp only [NoJacJustified]; exact hnext
+            | raised => simp only [NoJacJustified]; exact hnext
+
+theorem sim_history_noJac (g : Glue) (hg : GlueOk g = true) (c : SContent) (ops : List SimOp) (s0 s : SimState)
+    (outs : List SimOut) (h0 : simInitG g c = .ok s0) (hr : runG g s0 ops = .ok (s, outs)) :
+    NoJacJustified c c ops outs := by
+  unfold simInitG at h0
+  simp only [installG_eq g hg, bind, Except.bind, pure, Except.pure, Except.ok.injEq] at h0
+  subst h0
+  refine run_noJac g hg ops _ s outs c ?_ hr
+  intro hnone
+  cases hij : installJac c with
+  | none => rfl
+  | some cl => simp [hij] at hnone
+
 /-- **every history**: build the Simulator on `c`, apply any sequence of parameter updates, other edits of the model,
     re-initialisations and Jacobian calls; every matrix the integrator receives is `jac_fn` of a fresh Simulator on the
     content the model has at that moment -/
@@ -467,9 +692,11 @@ theorem sim_history (g : Glue) (hg : GlueOk g = true) (c : SContent) (ops : List
     (outs : List SimOut) (h0 : simInitG g c = .ok s0) (hr : runG g s0 ops = .ok (s, outs)) :
     GoodOuts c ops outs := by
   unfold simInitG at h0
-  simp only [installG_eq g hg, bind, Except.bind, pure, Except.pure, Except.ok.injEq] at h0
+  simp only [installG_eq g hg, cacheReadAfter_of_ok g hg, bind, Except.bind, pure, Except.pure, Except.ok.injEq,
+    if_true] at h0
   subst h0
-  have hinv : SimInv { content := c, version := 0, jac := (installJac c).map fun cl => (cl, 0) } := by
+  have hinv : SimInv { content := c, version := verAfterCompile c 0,
+                       jac := (installJac c).map fun cl => (cl, verAfterCompile c 0) } := by
     refine ⟨c, ?_, ?_⟩
     · cases installJac c <;> simp
     · intro cl ver hj
